@@ -29,6 +29,8 @@ fn presentation(family: &str, p: usize) -> (usize, Vec<Vec<isize>>) {
             (2, vec![vec![1, 1], vec![2, 2], ab])
         }
         "C" => (1, vec![vec![1; p]]),
+        // finite abelian Z_m x Z_m = <a,b | a^m, b^m, [a,b]>
+        "A" => (2, vec![vec![1; p], vec![2; p], vec![1, 2, -1, -2]]),
         // a generator declared trivial by a relator of length 1: <a,b | a, b^m>
         "L" => (2, vec![vec![1], vec![2; p]]),
         // redundant generators: <a,b,c | c a^m, c^-1 b> (infinite cyclic, b = c = a^-m)
@@ -57,6 +59,9 @@ fn subgroup(pattern: &str, n: usize) -> Vec<Vec<isize>> {
         "ab" => vec![vec![1, 2]],
         "mix" => vec![vec![1, 2, 1], vec![2]],
         "second" => vec![vec![2]],
+        "b3" => vec![vec![2, 2, 2]],
+        "b2" => vec![vec![2, 2]],
+        "a4" => vec![vec![1, 1, 1, 1]],
         "sqab" => vec![vec![1, 1], vec![2, 2], vec![1, 2]],
         "comm" => vec![vec![1, 2, -1, -2]],
         "inv" => vec![vec![-1, 2], vec![2, 2]],
